@@ -277,7 +277,7 @@ def tmp_leftovers():
         return []
 
 
-def run_case(case, hooks=None):
+def run_case(case, hooks=None, mutate=False):
     """-> {'steps': [obs...]}; obs for build: res, tree, inv, queries; for mut: tree"""
     fb = load_fb()
     FileBuilder = fb.FileBuilder
@@ -302,6 +302,7 @@ def run_case(case, hooks=None):
                 _, name, versions_w, root_idx, arg_w = st[:5]
                 versions = dsl.dec_pyval(versions_w)
                 ctx = dsl.Ctx(case, root, versions, clock, fb.FileComparison)
+                ctx.mutate = mutate
                 before_tmp = tmp_leftovers()
 
                 def rootf(b, a):
